@@ -16,6 +16,7 @@ import SnowModel.Core.Output
 import SnowModel.Generated.OutputStreams
 import SnowModel.Generated.OutputApi
 import SnowModel.Generated.OutputSchema
+import SnowModel.Generated.OutputGenerate
 
 namespace SnowModel.Props.C08Bridge
 open SnowModel.Output
@@ -84,13 +85,33 @@ theorem formats_eq :
 
 /-! ### the `close()` handler — relative to the recorded finding D15 -/
 
-/-- mirrors `known_findings.json` entry C08/D15: the handler swallows -/
-def Known.D15_closeSwallows : Bool := true
+/-- The handler around `output_stream.close()` still catches and does not re-raise (two tests of
+    Snowfakery's own suite pin that).  It is a pinned *fact*, no longer a finding: `Props.C08.close_reports`
+    holds for every value of `swallow` because, since fix 043066e, nothing is left to fail in
+    `close()` (`close_never_fails`).  It is the value the residual witness
+    `close_reports_script_refuted` (D15b) and the old-model witness instantiate `swallow` with. -/
+theorem closeSwallows_eq : Gen.OutputApi.closeSwallows = true := rfl
 
-/-- The handler still swallows exceptions of `close()` (this is the value the D15 witness
-    `Props.C08.close_reports_refuted` instantiates `swallow` with).  After a repair that re-raises,
-    this lemma breaks; `Props.C08.success_without_swallow_is_lossless` is then the applicable theorem. -/
-theorem closeSwallows_known : Gen.OutputApi.closeSwallows = Known.D15_closeSwallows := rfl
+/-! ### fix 043066e: commit before the run can report success; close every multiplexed stream -/
+
+/-- `generate()` commits the output stream right after `interpreter.execute()`, inside the try, and
+    a failure is re-raised as `DataGenError`: the model's `runDb` / `runScript` are the `pre = true`
+    instances (`Props.C08.close_reports`, `close_never_fails`).  Reverting the fix flips this pin. -/
+theorem commitsBeforeSuccess_eq : Gen.OutputGenerate.commitsBeforeSuccess = true := rfl
+
+theorem interpreterBlock_eq : Gen.OutputGenerate.interpreterBlock =
+    ["runtime_context = interpreter.execute()", "try:\n    output_stream.commit()\nexcept Exception as e:\n    raise DataGenError(f'Cannot write to output stream: {e}') from e"] := rfl
+
+/-- no handler around the Interpreter block swallows: the `DataGenError` of the commit fails the run
+    (`Outcome.commitFailed`, `reportsSuccess = false`) -/
+theorem generate_handlers_reraise :
+    Gen.OutputGenerate.generateHandlers = ["DataGenError"] ∧ Gen.OutputGenerate.generateSwallowingHandlers = [] :=
+  ⟨rfl, rfl⟩
+
+/-- `MultiplexOutputStream.close` goes on after a failing close and re-raises afterwards:
+    `muxClose true` (`Props.C08.mux_close_reaches_all`) and `muxCloseRaises`. -/
+theorem muxClose_goesOn_eq :
+    Gen.OutputStreams.muxCloseGoesOn = true ∧ Gen.OutputStreams.muxCloseReraises = true := ⟨rfl, rfl⟩
 
 /-! ### statement text of the mirrored methods -/
 
@@ -146,17 +167,19 @@ theorem db_close_eq : Gen.OutputStreams.db_close =
 theorem db_create_or_validate_tables_eq : Gen.OutputStreams.db_create_or_validate_tables =
     ["try:\n    create_tables_from_inferred_fields(inferred_tables, self.engine, self.metadata)\nexcept Exception as e:\n    raise DataGenError(f'Cannot write to database: {e}')", "self.metadata.create_all(bind=self.engine)", "self.base.prepare(autoload_with=self.engine, reflect=True)", "TableTuple = namedtuple('TableTuple', ['insert_statement', 'fallback_dict'])", "for tablename, model in self.metadata.tables.items():\n    if tablename in inferred_tables:\n        table_info = TableTuple(insert_statement=model.insert().inline(), fallback_dict={key: None for key in inferred_tables[tablename].fields.keys()})\n        table_info.fallback_dict.setdefault('id', None)\n        if inferred_tables[tablename].has_update_keys:\n            table_info.fallback_dict.setdefault('_sf_update_key', None)\n        self.table_info[tablename] = table_info"] := rfl
 
-/-- `SqlTextOutputStream` overrides neither `write_row`, `cleanup`, `encoders` nor `commit` -/
+/-- `SqlTextOutputStream` overrides neither `write_row`, `cleanup` nor `encoders`; it has its own
+    `flush` and (since 043066e) `commit` -/
 theorem sqlTextMethods_eq : Gen.OutputStreams.sqlTextMethods =
-    ["__init__", "_init_db", "write_single_row", "create_or_validate_tables", "flush", "_dump_db", "close"] := rfl
+    ["__init__", "_init_db", "write_single_row", "create_or_validate_tables", "flush", "commit", "_dump_db", "close"] := rfl
 
 /-- its `flush` delegates to the inner DB stream -/
 theorem sqlText_flush_eq : Gen.OutputStreams.sqlText_flush =
     ["self.sql_db.flush()"] := rfl
 
-/-- its `commit` is the inherited no-op: the DB machine with the commit threshold switched off (`cl = 0`) -/
+/-- its `commit` delegates to the inner DB stream (since 043066e): the SQL script runs the same
+    machine as the database stream, with the same thresholds -/
 theorem sqlText_commit_eq : Gen.OutputStreams.sqlText_commit =
-    ["OutputStream", "pass"] := rfl
+    ["SqlTextOutputStream", "self.sql_db.commit()"] := rfl
 
 /-- `_dump_db` commits the inner stream before dumping -/
 theorem sqlText_dump_db_eq : Gen.OutputStreams.sqlText_dump_db =
@@ -191,9 +214,13 @@ theorem mux_create_or_validate_tables_eq : Gen.OutputStreams.mux_create_or_valid
 theorem mux_write_row_eq : Gen.OutputStreams.mux_write_row =
     ["for stream in self.outputstreams:\n    stream.write_row(tablename, row_with_references)"] := rfl
 
-/-- multiplex: `close` every stream in order, no exception handling (`muxClose`) -/
+/-- multiplex: `commit` every stream in order (stops at the first exception: the run fails) -/
+theorem mux_commit_eq : Gen.OutputStreams.mux_commit =
+    ["for stream in self.outputstreams:\n    stream.commit()"] := rfl
+
+/-- multiplex: `close` every stream, remember the first error, re-raise it afterwards (`muxClose true`) -/
 theorem mux_close_eq : Gen.OutputStreams.mux_close =
-    ["for stream in self.outputstreams:\n    stream.close()"] := rfl
+    ["first_error = None", "for stream in self.outputstreams:\n    try:\n        stream.close()\n    except Exception as e:\n        first_error = first_error or e", "if first_error:\n    raise first_error"] := rfl
 
 /-- `except Exception` around `close()` -/
 theorem closeHandlers_eq : Gen.OutputApi.closeHandlers =
